@@ -60,7 +60,10 @@ func newL2Server(tokenAuth bool, sendBuf int) *l2server {
 		web.InitStore([]byte("0123456789abcdef0123456789abcdef"), []byte("fedcba9876543210fedcba9876543210"), "cookie", 0)
 	})
 	s := &l2server{logs: map[string][]string{}}
-	gw := &protocol.Gateway{TokenAuth: tokenAuth, SendBuf: sendBuf}
+	// all five device classes enabled individually: the redirect flags then encode as 0, the value a lazily
+	// initialised cache would take for "not computed yet"
+	gw := &protocol.Gateway{TokenAuth: tokenAuth, SendBuf: sendBuf,
+		RedirectFlags: protocol.RedirectFlags{Clipboard: true, Port: true, Drive: true, Printer: true, Pnp: true}}
 	tun := func(ctx context.Context) *protocol.Tunnel {
 		t, _ := ctx.Value(protocol.CtxTunnel).(*protocol.Tunnel)
 		return t
